@@ -35,13 +35,16 @@ def fbits(x, single=False):
 class Opts:
     def __init__(self, wire=False, role=None, real32_single=True,
                  ignore_host=False, strict_scopes=False,
-                 char16_as_str=False):
+                 char16_as_str=False, embedded=False):
         # char16_as_str: a char16 value whose CIM type is carried by the
         # enclosing property/parameter may be a str or a Char16 (both are
         # documented representations); keybinding values stay distinct,
         # because there the python type is the only carrier of the CIM type
         self.char16_as_str = char16_as_str
         self.in_key = False
+        # embedded: the fingerprinted value is a property/parameter value, so
+        # instances in it are embedded objects (no path on the wire)
+        self.embedded = embedded
         self.wire = wire
         self.role = role
         self.real32_single = real32_single
@@ -63,6 +66,16 @@ def _fpdict(d, o):
     if d is None:
         return None
     return tuple((k, _fp(v, o)) for k, v in d.items())
+
+
+def _fp_value(v, o):
+    """Fingerprint of a property/parameter value: instances and classes
+    found here are embedded objects."""
+    was, o.embedded = o.embedded, True
+    try:
+        return _fp(v, o)
+    finally:
+        o.embedded = was
 
 
 def _fp(x, o):
@@ -107,8 +120,11 @@ def _fp(x, o):
         return ('CIMClassName', x.classname,
                 None if o.ignore_host else x.host, x.namespace)
     if isinstance(x, CIMInstance):
+        # an embedded instance travels as INSTANCE: its path is not part of
+        # the wire form
+        path = None if (o.wire and o.embedded) else _fp(x.path, o)
         return ('CIMInstance', x.classname, _fpdict(x.properties, o),
-                _fpdict(x.qualifiers, o), _fp(x.path, o))
+                _fpdict(x.qualifiers, o), path)
     if isinstance(x, CIMClass):
         return ('CIMClass', x.classname, x.superclass,
                 _fpdict(x.properties, o), _fpdict(x.methods, o),
@@ -116,7 +132,7 @@ def _fp(x, o):
                 None if o.wire else _fp(x.path, o))
     if isinstance(x, CIMProperty):
         emb = x.embedded_object
-        return ('CIMProperty', x.name, x.type, _fp(x.value, o),
+        return ('CIMProperty', x.name, x.type, _fp_value(x.value, o),
                 x.reference_class, emb, x.is_array, x.array_size,
                 x.class_origin, _flag(x.propagated, False, o),
                 _fpdict(x.qualifiers, o))
@@ -127,7 +143,7 @@ def _fp(x, o):
     if isinstance(x, CIMParameter):
         return ('CIMParameter', x.name, x.type, x.reference_class,
                 x.is_array, x.array_size, _fpdict(x.qualifiers, o),
-                _fp(x.value, o), x.embedded_object)
+                _fp_value(x.value, o), x.embedded_object)
     if isinstance(x, CIMQualifier):
         return ('CIMQualifier', x.name, x.type, _fp(x.value, o),
                 _flag(x.propagated, False, o), _flag(x.overridable, True, o),
